@@ -1043,3 +1043,181 @@ Proof.
       change (var_start s4) with (m_code_start s + c_new_prog_size a) in Hfit.
       change (m_code_start s5 + m_prog_size s5) with (m_code_start s + c_new_prog_size a). lia.
 Qed.
+
+Lemma alookup_none_notin {V} (l : list (bytes * V)) n : alookup n l = None -> ~ In n (map fst l).
+Proof.
+  intros H Hin. apply amem_in in Hin. unfold amem in Hin. rewrite H in Hin. discriminate.
+Qed.
+
+(* membership in the set preserve_commons iterates over *)
+Lemma in_commons_scalar a s gs n v :
+  (forall n, nmem n gs = nmem n (c_cs_order a)) -> alookup n (sc_vars s) = Some v ->
+  c_all a || nmem n gs = true ->
+  In n (if c_all a then map fst (sc_vars s) else c_cs_order a).
+Proof.
+  intros Hg Hv Hc. destruct (c_all a).
+  - apply alookup_some_in in Hv. change n with (fst (n, v)). apply in_map, Hv.
+  - cbn [orb] in Hc. rewrite Hg in Hc. apply nmem_in, Hc.
+Qed.
+Lemma commons_cond a gs l n :
+  (forall n, nmem n gs = nmem n (c_cs_order a)) ->
+  In n (if c_all a then l else c_cs_order a) -> c_all a || nmem n gs = true.
+Proof.
+  intros Hg Hin. destruct (c_all a); [reflexivity|]. cbn [orb]. rewrite Hg. apply nmem_in, Hin.
+Qed.
+
+Theorem chain_scalars_exact a s s' : cmd_chain a s = Done s' ->
+  NoDup (map fst (sc_vars s)) -> NoDup (map fst (ar_dims s)) -> dims_ok s ->
+  exists gs, gather (deftype s) 0 (c_decls a) [] = Ok gs /\
+    forall n, scalar_value s' n = if c_all a || nmem n gs then scalar_value s n else None.
+Proof.
+  intros H Hnds Hnda Hdims.
+  destruct (chain_done_facts _ _ _ H Hnds Hnda Hdims) as (gs & ga & sv & arrs & Hg0 & _ & Hrest).
+  cbv zeta in Hrest. destruct Hrest as (Hgs & _ & Hndcs & _ & _ & HF1 & _ & L1 & _ & V).
+  exists gs. split; [assumption|]. intro n. unfold scalar_value. rewrite L1.
+  set (cs' := if c_all a then map fst (sc_vars s) else c_cs_order a) in *.
+  assert (map fst (sv_scalars sv) = map fst (pick_scalars cs' s)) as Hk
+    by (eapply Forall2_map_fst; [exact HF1 | intros x y [E _]; exact E]).
+  destruct (alookup n (sv_scalars sv)) as [v'|] eqn:El.
+  - apply alookup_some_in in El.
+    destruct (Forall2_in_r _ _ _ _ HF1 El) as ([n0 v] & Hin & Hf & Hok). cbn [fst snd] in *. subst n0.
+    apply (proj2 (pick_scalars_spec cs' s)) in Hin as [Hc Hv]. rewrite Hv.
+    rewrite (commons_cond a gs _ n Hgs Hc). f_equal.
+    unfold scalar_ok in Hok. destruct (is_str_scalar n); [|congruence].
+    destruct Hok as (p & p' & b & Hu & Hvw & Hp & Hg & Hl & Hpv).
+    unfold str_of. rewrite (pack3_unpack3 _ _ Hp), Hu. cbn [bind].
+    rewrite (V _ _ Hpv Hg Hl), Hvw. reflexivity.
+  - apply alookup_none_notin in El. rewrite Hk, (proj1 (pick_scalars_spec cs' s)) in El.
+    destruct (c_all a || nmem n gs) eqn:Ec; [|reflexivity].
+    destruct (alookup n (sc_vars s)) as [v|] eqn:Ev; [|reflexivity].
+    exfalso. apply El. apply filter_In. split.
+    + exact (in_commons_scalar a s gs n v Hgs Ev Ec).
+    + unfold amem. rewrite Ev. reflexivity.
+Qed.
+
+Lemma buf_moved_strs s d s' b b' : buf_moved s d b b' ->
+  (forall p x, pvalid d p -> sget d p = Some x -> fst p = zlen x -> view s' (fst p) (snd p) = Ok x) ->
+  buf_strs s' b' = buf_strs s b.
+Proof.
+  intros H V. induction H as [|l lo hi r p' c r' x Hv Hp Hg Hl Hpv _ IH]; [reflexivity|].
+  destruct p' as [l' a']. unfold pack3 in Hp.
+  destruct ((0 <=? l') && (l' <=? 255) && (0 <=? a') && (a' <=? 65535)) eqn:E; [|discriminate].
+  injection Hp as <-. cbn [app buf_strs].
+  replace (a' mod 256 + 256 * (a' / 256)) with a' by lia.
+  pose proof (V (l', a') x Hpv Hg Hl) as Hvv. cbn [fst snd] in Hvv.
+  rewrite Hvv, Hv, IH. reflexivity.
+Qed.
+
+Theorem chain_arrays_exact a s s' : cmd_chain a s = Done s' ->
+  NoDup (map fst (sc_vars s)) -> NoDup (map fst (ar_dims s)) -> dims_ok s ->
+  exists ga, gather (deftype s) 1 (c_decls a) [] = Ok ga /\
+    forall n, array_value s' n = if c_all a || nmem n ga then array_value s n else None.
+Proof.
+  intros H Hnds Hnda Hdims.
+  destruct (chain_done_facts _ _ _ H Hnds Hnda Hdims) as (gs & ga & sv & arrs & _ & Hg1 & Hrest).
+  cbv zeta in Hrest. destruct Hrest as (_ & Hga & _ & Hndca & Hpa & _ & HF2 & _ & L2 & V).
+  exists ga. split; [assumption|]. intro n. unfold array_value.
+  destruct (L2 n) as [Ld Lb]. rewrite Ld, Lb.
+  set (ca' := if c_all a then map fst (ar_dims s) else c_ca_order a) in *.
+  assert (map fst (sv_arrays sv) = map fst arrs) as Hk
+    by (eapply Forall2_map_fst; [exact HF2 | intros x y [E _]; exact E]).
+  assert (forall d b, alookup n (ar_dims s) = Some d -> c_all a || nmem n ga = true -> In n ca') as Hinca.
+  { intros d b Hd Hc. unfold ca'. destruct (c_all a).
+    - apply alookup_some_in in Hd. change n with (fst (n, d)). apply in_map, Hd.
+    - cbn [orb] in Hc. rewrite Hga in Hc. apply nmem_in, Hc. }
+  destruct (alookup n (sv_arrays sv)) as [[d' b']|] eqn:El; cbn [option_map fst snd].
+  - apply alookup_some_in in El.
+    destruct (Forall2_in_r _ _ _ _ HF2 El) as ([n0 [d b]] & Hin & Hf & Hok). cbn [fst snd] in *. subst n0.
+    apply (proj2 (pick_arrays_spec _ _ _ Hpa)) in Hin as (Hc & Hd & Hb). rewrite Hd, Hb.
+    assert (c_all a || nmem n ga = true) as ->.
+    { unfold ca' in Hc. destruct (c_all a); [reflexivity|]. cbn [orb]. rewrite Hga. apply nmem_in, Hc. }
+    destruct Hok as [Hdd Hbb]. cbn [fst snd] in *. subst d'. f_equal. f_equal.
+    destruct (is_str_name n); [|congruence]. eapply buf_moved_strs; eassumption.
+  - apply alookup_none_notin in El. rewrite Hk, (proj1 (pick_arrays_spec _ _ _ Hpa)) in El.
+    destruct (c_all a || nmem n ga) eqn:Ec; [|reflexivity].
+    destruct (alookup n (ar_dims s)) as [d|] eqn:Ed; [|reflexivity].
+    destruct (alookup n (ar_bufs s)) as [b|] eqn:Eb; [|reflexivity].
+    exfalso. apply El. apply filter_In. split; [exact (Hinca d b eq_refl Ec)|].
+    unfold amem. rewrite Ed. reflexivity.
+Qed.
+
+(* everything else after a successful CHAIN *)
+Theorem chain_rest a s s' : cmd_chain a s = Done s' ->
+  (gosub_stack s', for_stack s', while_stack s') = ([], [], [])
+  /\ (on_error s', err_handle s', err_resume s', err_num s', err_pos s') = (None, false, false, 0, 0)
+  /\ (stop_pos s', data_pos s', seed s') = (None, 0, 5228370)
+  /\ (ev_enabled s', ev_gosub s', ev_stopped s', ev_suspend s') = ([], [], [], false)
+  /\ deftype s' = (if c_merge a then deftype s else repeat 33 26)
+  /\ functions s' = (if c_all a then functions s else [])
+  /\ m_prog_size s' = c_new_prog_size a /\ run_mode s' = true /\ m_allow_collect s' = true
+  /\ (m_total s', m_stack s', m_code_start s', files s') = (m_total s, m_stack s, m_code_start s, files s).
+Proof.
+  intro H.
+  destruct (chain_done_inv _ _ _ H) as (gs & ga & sv & sz & s6 & _ & _ & _ & _ & _ & _ & Hrest).
+  cbv zeta in Hrest. destruct Hrest as (_ & _ & _ & Hr & ->).
+  unfold restore_all in Hr.
+  match type of Hr with context [restore_scalars ?l ?z] => destruct (restore_scalars l z) as [s5a| | | |] eqn:Ers end;
+    try discriminate.
+  destruct (restore_scalars_spec _ _ _ _ Ers eq_refl) as [Fr1 _].
+  destruct (restore_arrays_spec _ _ _ _ Hr eq_refl) as [Fr2 _].
+  assert (frame s6 = frame _) as Fr by (etransitivity; [exact Fr2 | exact Fr1]).
+  unfold frame in Fr.
+  injection Fr as F1 F2 F3 F4 _ _ _ _ F9 F10 F11 F12 F13 F14 F15 F16 F17 F18 F19 F20 F21 F22 F23 F24 F25 F26 F27 F28 _.
+  unfold gc_on. cbn -[repeat].
+  rewrite F1, F2, F3, F4, F9, F10, F11, F12, F13, F14, F15, F16, F17, F18, F19, F20, F21, F22, F23, F24, F25, F26, F27, F28.
+  repeat split; destruct (c_merge a), (c_all a); reflexivity.
+Qed.
+
+(* no outcome of CHAIN leaves string garbage collection switched off (hold_garbage's `finally:`) *)
+Theorem chain_gc_on a s s' : out_state (cmd_chain a s) = Some s' ->
+  m_allow_collect s = true -> m_allow_collect s' = true.
+Proof.
+  rewrite chain_closed. unfold chain_spec. intros H Hs.
+  repeat match type of H with
+  | context [match ?x with _ => _ end] => destruct x
+  end; cbn [out_state] in H; try discriminate; injection H as <-; try reflexivity; exact Hs.
+Qed.
+
+(* Out of memory in CHAIN: where it can come from and what is left *)
+Theorem chain_oom a s s' : cmd_chain a s = Raised err_OUT_OF_MEMORY s' ->
+  (* (1) while the COMMON strings are copied: nothing has been touched *)
+  s' = s <| m_allow_collect := true |>
+  \/ (* (2) the variables do not fit under the new program, (3) or the last one does not when it is allocated:
+        the new program is in place, everything was cleared, at most COMMON variables exist *)
+     (m_prog_size s' = c_new_prog_size a /\ run_mode s' = true /\ m_allow_collect s' = true
+      /\ (gosub_stack s', for_stack s', while_stack s', on_error s', seed s', data_pos s')
+         = ([], [], [], None, 5228370, 0)).
+Proof.
+  rewrite chain_closed. unfold chain_spec. cbn [h_gather h_setok h_migrate h_sizes h_restore real_handlers].
+  intro H.
+  destruct (c_delete a && c_to_line_missing a); [discriminate|].
+  destruct (c_protected a && c_merge a); [discriminate|].
+  destruct (gather (deftype s) 0 (c_decls a) []); try discriminate.
+  destruct (gather (deftype s) 1 (c_decls a) []); try discriminate.
+  match type of H with context [if ?c then _ else _] => destruct c end; [|discriminate].
+  match type of H with context [migrate_commons ?x ?y ?z] => destruct (migrate_commons x y z) as [sv| | |] end;
+    try discriminate.
+  - destruct (c_file_missing a); [discriminate|].
+    destruct (match c_jumpnum a with Some _ => c_jump_missing a | None => false end); [discriminate|].
+    match type of H with context [sizes_of sv ?z] => destruct (sizes_of sv z) as [sz| | |] end; try discriminate.
+    + match type of H with context [Z.ltb ?x ?y] => destruct (Z.ltb x y) end.
+      * injection H as <-. right. repeat split.
+      * match type of H with context [restore_all sv ?z] => destruct (restore_all sv z) as [s6|n s6| | |] eqn:Er end;
+          try discriminate.
+        injection H as -> <-. right.
+        unfold restore_all in Er.
+        match type of Er with context [restore_scalars ?l ?z] =>
+          destruct (restore_scalars l z) as [s5a|n5 s5a| | |] eqn:Ers end; try discriminate.
+        -- destruct (restore_scalars_spec _ _ _ _ Ers eq_refl) as [Fr1 _].
+           destruct (restore_arrays_spec _ _ _ _ Er eq_refl) as [Fr2 _].
+           assert (frame s6 = frame _) as Fr by (etransitivity; [exact Fr2 | exact Fr1]).
+           unfold frame in Fr.
+           injection Fr as _ _ _ F4 _ _ _ _ _ _ F11 F12 F13 F14 _ _ _ _ _ F20 F21 _ F23 _ _ _ _ _ _.
+           unfold gc_on. cbn. rewrite F4, F11, F12, F13, F14, F20, F21, F23. repeat split.
+        -- injection Er as -> ->.
+           destruct (restore_scalars_spec _ _ _ _ Ers eq_refl) as [Fr _]. unfold frame in Fr.
+           injection Fr as _ _ _ F4 _ _ _ _ _ _ F11 F12 F13 F14 _ _ _ _ _ F20 F21 _ F23 _ _ _ _ _ _.
+           unfold gc_on. cbn. rewrite F4, F11, F12, F13, F14, F20, F21, F23. repeat split.
+    + injection H as _ <-. right. repeat split.
+  - injection H as _ <-. left. reflexivity.
+Qed.
